@@ -10,7 +10,7 @@
   caller of Parse / GetTemplate.
 
   The proof is the cursor invariant `0 ≤ start ≤ pos ≤ len(input)` carried through all twelve state
-  functions, with the fact each state relies on when it is entered ("the left delimiter starts here",
+  functions, extended by "every field item recorded so far is a dot followed by a byte", with the fact each state relies on when it is entered ("the left delimiter starts here",
   "one space has been read", "the rune at the cursor is alphanumeric", ...) established by the state
   function that selects it.  Writing that invariant down for lexRightDelim is what turned up D56.
 -/
@@ -27,9 +27,10 @@ theorem lexer_never_crashes (l r lc rc input : Bytes) (m : String) (e : List Eve
   unfold lexRun
   exact (runLoop_ok _ StateId.text _ (initial_B _ (mkDelims_wf l r lc rc) input) trivial).1 m e
 
-/-- every item the lexer hands to the parser - error items included - is positioned inside the source -/
-theorem lexer_items_lie_in_the_source (l r lc rc input : Bytes) :
-    ∀ ev ∈ (lexRun (mkDelims l r lc rc) input).evs, EvOk input.length ev := by
+/-- every item the lexer hands to the parser - error items included - is positioned inside the
+    source, and every field item is a dot followed by at least one byte -/
+theorem lexer_items_are_well_formed (l r lc rc input : Bytes) :
+    ∀ ev ∈ (lexRun (mkDelims l r lc rc) input).evs, EvOk input.length ev ∧ FieldEv ev := by
   unfold lexRun
   exact (runLoop_ok _ StateId.text _ (initial_B _ (mkDelims_wf l r lc rc) input) trivial).2
 
@@ -38,34 +39,65 @@ theorem lexer_items_lie_in_the_source (l r lc rc input : Bytes) :
 theorem every_state_function_is_safe (inp : Bytes) (d : Delims) (st : StateId) (s : St)
     (h : B inp d s) (he : Entry st s) : Ok (step st s) (Goes inp d) := step_ok st s h he
 
-/-- **Lexer and parser together**: `Set.parse` on any source under any delimiter configuration does
-    not crash, provided field items have the form `.x…` (asserted of every item of every lexed source
-    by the `lex` stream; the positions of all items are proved above). -/
-theorem parseSource_never_crashes (cfg : Parse.Cfg) (l r lc rc name input : Bytes)
-    (hfield : ∀ evs, lexRun (mkDelims l r lc rc) input = .done evs →
-      ∀ it ∈ Parse.itemsOf evs, it.typ = Tok.field → ∃ c cs, it.val = 46 :: c :: cs) (w : String) :
+/-- what the lexer produces is what the parser theorems assume (`WfItems`) -/
+theorem lexer_output_satisfies_parser_assumptions (l r lc rc input : Bytes) (evs : List Event)
+    (hl : lexRun (mkDelims l r lc rc) input = .done evs) : C02P.WfItems input (Parse.itemsOf evs) := by
+  intro it hit
+  have hpos := lexer_items_are_well_formed l r lc rc input
+  rw [hl] at hpos
+  simp only [Outcome.evs] at hpos
+  simp only [Parse.itemsOf, tokensOf, List.mem_map, List.mem_filterMap] at hit
+  obtain ⟨⟨t, a, v⟩, ⟨ev, hev, hfm⟩, rfl⟩ := hit
+  have := hpos ev hev
+  cases ev with
+  | emit t' a' b' v' =>
+    simp at hfm; obtain ⟨rfl, rfl, rfl⟩ := hfm
+    simp only [EvOk, FieldEv] at this
+    exact ⟨by simp; omega, by simp; omega, this.2⟩
+  | ignore k a' b' => simp at hfm
+  | err a' msg =>
+    simp at hfm; obtain ⟨rfl, rfl, rfl⟩ := hfm
+    simp only [EvOk] at this
+    exact ⟨by simp; omega, by simp; omega, by intro hc; simp at hc⟩
+
+/-- **Lexer and parser together**: `Set.parse` on any source under any delimiter configuration, with
+    any literal table and any loader, never crashes. -/
+theorem parseSource_never_crashes (cfg : Parse.Cfg) (l r lc rc name input : Bytes) (w : String) :
     Parse.parseSource cfg (mkDelims l r lc rc) name input ≠ .crash w := by
   intro hc
   unfold Parse.parseSource at hc
   cases hl : lexRun (mkDelims l r lc rc) input with
   | done evs =>
     rw [hl] at hc
-    simp only at hc
-    refine C02P.parseItems_never_crashes cfg name input (Parse.itemsOf evs) ?_ w hc
-    intro it hit
-    have hpos := lexer_items_lie_in_the_source l r lc rc input
-    rw [hl] at hpos
-    simp only [Outcome.evs] at hpos
-    refine ⟨?_, ?_, hfield evs hl it hit⟩
-    all_goals
-      simp only [Parse.itemsOf, tokensOf, List.mem_map, List.mem_filterMap] at hit
-      obtain ⟨⟨t, a, v⟩, ⟨ev, hev, hfm⟩, rfl⟩ := hit
-      have := hpos ev hev
-      cases ev with
-      | emit t' a' b' v' => simp at hfm; obtain ⟨rfl, rfl, rfl⟩ := hfm; simp only [EvOk] at this; simp; omega
-      | ignore k a' b' => simp at hfm
-      | err a' msg => simp at hfm; obtain ⟨rfl, rfl, rfl⟩ := hfm; simp only [EvOk] at this; simp; omega
+    exact C02P.parseItems_never_crashes cfg name input (Parse.itemsOf evs)
+      (lexer_output_satisfies_parser_assumptions l r lc rc input evs hl) w hc
   | crash m e => exact lexer_never_crashes l r lc rc input m e hl
   | outOfFuel e => rw [hl] at hc; simp at hc
+
+/-- a syntax error of `Set.parse` names a line of the source, for any source and configuration -/
+theorem parseSource_error_names_a_source_line (cfg : Parse.Cfg) (l r lc rc name input : Bytes)
+    (line : Nat) (msg : Parse.Msg)
+    (he : Parse.parseSource cfg (mkDelims l r lc rc) name input = .err line msg) :
+    1 ≤ line ∧ line ≤ 1 + Parse.countNl input := by
+  unfold Parse.parseSource at he
+  cases hl : lexRun (mkDelims l r lc rc) input with
+  | done evs =>
+    rw [hl] at he
+    simp only at he
+    unfold Parse.parseItems at he
+    have hw := lexer_output_satisfies_parser_assumptions l r lc rc input evs hl
+    cases hp : Parse.parseTemplate cfg (Parse.fuelFor (Parse.itemsOf evs))
+        { input := input, name := name, toks := Parse.itemsOf evs } with
+    | ok r s => rw [hp] at he; cases r; simp at he
+    | err l2 m2 =>
+      rw [hp] at he
+      simp at he
+      obtain ⟨rfl, rfl⟩ := he
+      exact C02P.syntax_error_names_a_source_line cfg name input _ _ hw _ _ hp
+    | crash w' => rw [hp] at he; simp at he
+    | fuel => rw [hp] at he; simp at he
+    | unsupported w' => rw [hp] at he; simp at he
+  | crash m e => rw [hl] at he; simp at he
+  | outOfFuel e => rw [hl] at he; simp at he
 
 end JetVerif.Props.C02L
